@@ -46,8 +46,55 @@ def dataclassify(cls, value):
     kw = {}
     for k, v in value.items():
         t = hints.get(k)
-        kw[k] = _conv(t, v)
+        kw[k] = _conv_inner(t, v) if MIXED.get("inner") and MIXED.get("top") is cls else _conv(t, v)
     return cls(**kw)
+
+
+def _dc_type(t, v):
+    """the data-type class annotated (possibly inside Optional) for the dict v, or None"""
+    if isinstance(t, type) and dataclasses.is_dataclass(t):
+        return t
+    if typing.get_origin(t) is typing.Union:
+        for a in typing.get_args(t):
+            if isinstance(a, type) and dataclasses.is_dataclass(a):
+                return a
+    return None
+
+
+def _list_arg(t):
+    if typing.get_origin(t) in (list, typing.List):
+        return (typing.get_args(t) or [None])[0]
+    if typing.get_origin(t) is typing.Union:
+        for a in typing.get_args(t):
+            if typing.get_origin(a) in (list, typing.List):
+                return (typing.get_args(a) or [None])[0]
+    return None
+
+
+def _conv_inner(t, v):
+    """the value stays a plain dict (or list of plain dicts); the data types INSIDE it become objects"""
+    if t is None or v is None:
+        return v
+    if isinstance(v, dict):
+        a = _dc_type(t, v)
+        if a is None:
+            return v
+        hints = typing.get_type_hints(a)
+        return {k: _conv(hints.get(k), x) for k, x in v.items()}
+    if isinstance(v, list):
+        a = _list_arg(t)
+        return [_conv_inner(a, x) for x in v] if a is not None else v
+    return v
+
+
+def contains_dataclass(v):
+    if dataclasses.is_dataclass(v) and not isinstance(v, type):
+        return True
+    if isinstance(v, dict):
+        return any(contains_dataclass(x) for x in v.values())
+    if isinstance(v, (list, tuple)):
+        return any(contains_dataclass(x) for x in v)
+    return False
 
 
 def _conv(t, v):
@@ -90,15 +137,20 @@ def _make(modname_, version, action, snake, as_dataclasses):
     cls = getattr(mod, action)
     if as_dataclasses:
         MIXED["on"] = as_dataclasses == "mixed"
+        MIXED["inner"] = as_dataclasses == "inner"
+        MIXED["top"] = cls
         try:
             return dataclassify(cls, copy.deepcopy(snake))
         finally:
             MIXED["on"] = False
+            MIXED["inner"] = False
+            MIXED["top"] = None
     return cls(**copy.deepcopy(snake))
 
 
 def make_request(version, action, snake, as_dataclasses):
-    """as_dataclasses: False (nested dicts) | True (nested data-type objects) | 'mixed' (lists mixing both)"""
+    """as_dataclasses: False (nested dicts) | True (nested data-type objects) | 'mixed' (lists mixing both) |
+    'inner' (field values are plain dicts that contain data-type objects deeper inside)"""
     return _make("call", version, action, snake, as_dataclasses)
 
 
